@@ -490,11 +490,14 @@ func (cs *clientStream) doHttpCall(transport http.RoundTripper, req *http.Reques
 			// final message is a trailer (need lock to write to cs.tr)
 			cs.rMu.Lock()
 			rMuHeld = true // defer above will unlock for us
-			cs.rErr = readProtoMessage(reply.Body, cs.codec, int32(-sz), &cs.tr)
-			if cs.rErr != nil {
-				if cs.rErr == io.EOF {
-					cs.rErr = io.ErrUnexpectedEOF
-				}
+			trErr := readProtoMessage(reply.Body, cs.codec, int32(-sz), &cs.tr)
+			if trErr == io.EOF {
+				trErr = io.ErrUnexpectedEOF
+			}
+			if cs.rErr == nil {
+				// an error already reported to the caller (e.g. a second
+				// response on a single-response method) stays the outcome
+				cs.rErr = trErr
 			}
 			if len(cs.tr.Metadata) > 0 && len(cs.copts.Trailers) > 0 {
 				cs.copts.SetTrailers(metadataFromProto(cs.tr.Metadata))
